@@ -170,8 +170,10 @@ theorem kind_ultimate_iff (r : Root) : r.kind = .ultimate ↔ r = .ultimate := b
   cases r <;> simp [Root.kind]
 theorem kind_startupCleanup_iff (r : Root) : r.kind = .startupCleanup ↔ r = .startupCleanup := by
   cases r <;> simp [Root.kind]
+theorem kind_coreWatch_iff (r : Root) : r.kind = .coreWatch ↔ r = .coreWatcher := by
+  cases r <;> simp [Root.kind]
 theorem guarded_iff (r : Root) :
-    r.guarded = true ↔ r ≠ .stopFlag ∧ r ≠ .ultimate ∧ r ≠ .startupCleanup := by
+    r.guarded = true ↔ r ≠ .stopFlag ∧ r ≠ .ultimate ∧ r ≠ .startupCleanup ∧ r ≠ .coreWatcher := by
   cases r <;> simp [Root.guarded, Root.kind]
 
 end Kopf.C20
@@ -204,7 +206,7 @@ theorem urgent_false {cfg : Cfg} {s : State} (h : urgent cfg s = false) :
     ∧ ((s.st (.root .orchestrator)).isStopping = true → noLiveSub s = false) := by
   unfold urgent at h
   simp only [Bool.or_eq_false_iff] at h
-  obtain ⟨⟨⟨⟨⟨⟨⟨h1, h2⟩, h3⟩, h4⟩, _⟩, _⟩, _⟩, h8⟩ := h
+  obtain ⟨⟨⟨⟨⟨⟨⟨⟨h1, h2⟩, h3⟩, h4⟩, _⟩, _⟩, _⟩, _⟩, h8⟩ := h
   refine ⟨h1, h2, ?_, ?_, ?_⟩
   · intro r
     rw [List.any_eq_false] at h3
@@ -251,5 +253,88 @@ theorem taskUrgent_false {s : State} {t : Task} (h : taskUrgent s t = false) :
   have := h.2
   simp [hst, dlReached] at this
   exact this
+
+end Kopf.C20
+
+namespace Kopf.C20
+
+theorem stepC_step {cfg : Cfg} {s s' : State} {l : Label} (h : stepC cfg s l = some s') : step cfg s l = some s' := by
+  cases l <;> simp only [stepC] at h <;> first | exact h | (split at h <;> first | exact h | cases h)
+
+theorem stepC_delay {cfg : Cfg} {s s' : State} {n : Nat} (h : stepC cfg s (.delay n) = some s') :
+    coopDelay cfg s n = true := by
+  simp only [stepC] at h
+  split at h
+  · assumption
+  · cases h
+
+theorem coopDelay_iff {cfg : Cfg} {s : State} {n : Nat} :
+    coopDelay cfg s n = true ↔ urgent cfg s = false ∧ deadlinesAllow cfg s n = true := by
+  simp [coopDelay]
+
+theorem ReachC.init (cfg : Cfg) : ReachC cfg init := ⟨[], rfl⟩
+
+theorem runC_append (cfg : Cfg) : ∀ (ls ms : List Label) (s : State),
+    runC cfg s (ls ++ ms) = (runC cfg s ls).bind (fun s1 => runC cfg s1 ms)
+  | [], ms, s => by simp [runC]
+  | l :: ls, ms, s => by
+    simp only [List.cons_append, runC]
+    cases stepC cfg s l with
+    | none => simp
+    | some s1 => simpa using runC_append cfg ls ms s1
+
+theorem ReachC.step {cfg : Cfg} {s s' : State} {l : Label} (h : ReachC cfg s) (hs : stepC cfg s l = some s') :
+    ReachC cfg s' := by
+  obtain ⟨ls, hls⟩ := h
+  refine ⟨ls ++ [l], ?_⟩
+  rw [runC_append, hls]
+  simp [runC, hs]
+
+theorem runC_run {cfg : Cfg} : ∀ (ls : List Label) (s s' : State), runC cfg s ls = some s' → run cfg s ls = some s'
+  | [], s, s', h => by simpa [runC, run] using h
+  | l :: ls, s, s', h => by
+    simp only [runC] at h
+    cases h1 : stepC cfg s l with
+    | none => simp [h1] at h
+    | some s1 =>
+      simp only [h1] at h
+      simp only [run, stepC_step h1]
+      exact runC_run ls s1 s' h
+
+/-- a cooperative run is a run -/
+theorem ReachC.reach {cfg : Cfg} {s : State} (h : ReachC cfg s) : Reach cfg s := by
+  obtain ⟨ls, hls⟩ := h
+  exact ⟨ls, runC_run ls _ _ hls⟩
+
+/-- Induction over cooperatively reachable states. -/
+theorem ReachC.induction {cfg : Cfg} {P : State → Prop} (h0 : P Kopf.C20.init)
+    (hstep : ∀ s s' l, ReachC cfg s → P s → stepC cfg s l = some s' → P s') :
+    ∀ s, ReachC cfg s → P s := by
+  have key : ∀ (ls : List Label) (s0 s : State), ReachC cfg s0 → P s0 → runC cfg s0 ls = some s → P s := by
+    intro ls
+    induction ls with
+    | nil => intro s0 s _ hp h; simp [runC] at h; subst h; exact hp
+    | cons l ls ih =>
+      intro s0 s hr hp h
+      simp only [runC] at h
+      cases h1 : stepC cfg s0 l with
+      | none => simp [h1] at h
+      | some s1 =>
+        simp only [h1] at h
+        exact ih s1 s (hr.step h1) (hstep s0 s1 l hr hp h1) h
+  intro s ⟨ls, hls⟩
+  exact key ls _ s (ReachC.init cfg) h0 hls
+
+theorem coopStopped_iff (s : State) :
+    coopStopped s = true ↔ ∀ d, d < s.nDaemons → s.stopReq d = true → s.coop d = true → s.dm d ≠ .running := by
+  unfold coopStopped
+  rw [List.all_eq_true]
+  constructor
+  · intro h d hd h1 h2 h3
+    have := h d (List.mem_range.mpr hd)
+    simp [h1, h2, h3] at this
+  · intro h d hd
+    have := h d (List.mem_range.mp hd)
+    cases h1 : s.stopReq d <;> cases h2 : s.coop d <;> simp_all
 
 end Kopf.C20
